@@ -453,7 +453,7 @@ func classify(u int, inTx bool, s stmt) string {
 }
 
 func TestC22Routing(t *testing.T) {
-	pbt.Run(t, pbt.Spec{ID: "C22", Sub: "routing", Quick: 700, Thorough: 6000,
+	pbt.Run(t, pbt.Spec{ID: "C22", Sub: "routing", Quick: 700, Thorough: 3000,
 		Rule: "sessions of 1-6 steps (statement / begin / start transaction / commit / rollback / set autocommit) for a user that is rw+split (2/3 of cases), rw without splitting, ro+split or ro; statements drawn from plain select/show, writes, locking reads (FOR UPDATE, FOR SHARE, LOCK IN SHARE MODE, NOWAIT, SKIP LOCKED), /*master*/ hints at the three supported positions, read_only probes; keyword case, word separators (space, tab, newline, CRLF), leading and trailing comments (block, trace, --, #), trailing semicolon; check_select_lock configured on and off. non-trivial = a rw user's must-be-master statement of a non-plain class with a comment, unusual spacing or letter case was observed at a backend",
 		Floor: 0.4}, genCase, checkCase)
 }
